@@ -47,5 +47,10 @@ func (k Keeper) CalculateBaseFee(ctx sdk.Context) sdkmath.Int {
 	// Set global min gas price as lower bound of the base fee, transactions below
 	// the min gas price don't even reach the mempool.
 	minGasPrice := params.MinGasPrice.TruncateInt().BigInt()
-	return sdkmath.NewIntFromBigInt(math.BigMax(nextBaseFee, minGasPrice))
+	nextBaseFee = math.BigMax(nextBaseFee, minGasPrice)
+	if nextBaseFee.BitLen() > sdkmath.MaxBitLen {
+		// saturate at the maximum value instead of panic when converting into sdkmath.Int
+		nextBaseFee = new(big.Int).Sub(new(big.Int).Lsh(big.NewInt(1), sdkmath.MaxBitLen), big.NewInt(1))
+	}
+	return sdkmath.NewIntFromBigInt(nextBaseFee)
 }
